@@ -41,7 +41,7 @@ def cfg(NS=2, NO=1, MaxOps=2, KA='opt', KB='opt', Modes=('opt',), OpSet=('R', 'W
     def s(xs):
         return '{' + ', '.join('"%s"' % x for x in xs) + '}'
     lines = ['SPECIFICATION Spec', 'CONSTANTS', ' NS = %d' % NS, ' NO = %d' % NO, ' MaxOps = %d' % MaxOps,
-             ' KA = "%s"' % KA, ' KB = "%s"' % KB, ' ModesN = %s' % s(Modes), ' OpSetN = %s' % s(OpSet),
+             ' KA = %s' % s((KA,) if isinstance(KA, str) else KA), ' KB = %s' % s((KB,) if isinstance(KB, str) else KB), ' ModesN = %s' % s(Modes), ' OpSetN = %s' % s(OpSet),
              ' Modes1 = %s' % s(Modes if Modes1 is None else Modes1),
              ' OpSet1 = %s' % s(OpSet if OpSet1 is None else OpSet1),
              ' LockModes = %s' % s(LockModes), ' RefPhantomRemove = %s' % ('TRUE' if Ref else 'FALSE'),
@@ -76,9 +76,10 @@ def _step_of(state, no):
     return st
 
 
-def script_of(states, kinds, variant=0):
+def script_of(states, kinds=None, variant=0):
     """states: list of parsed TLC states, states[0] initial."""
     init = states[0]
+    kinds = (str(init['kind']['a']), str(init['kind']['b']))
     no = len(init['exists'])
     steps = [_step_of(st, no) for st in states[1:]]
     # a W that blocks is completed by a later Granted step: the value the program assigns is the one the
@@ -102,7 +103,8 @@ def edge_class(src, dst):
     if s == 0:
         return ('init',)
     holder = int(src['lockHolder'])
-    key = [str(ev['k']), str(ev['x']), str(ev['m']), str(ev['out']), str(ev['step']), str(_at(src['mode'], s)),
+    key = [str(src['kind']['a']), str(src['kind']['b']),
+           str(ev['k']), str(ev['x']), str(ev['m']), str(ev['out']), str(ev['step']), str(_at(src['mode'], s)),
            'mine' if holder == s else ('free' if holder == 0 else 'other'), len(src['waiting']),
            bool(_at(src['collFull'], s)),
            tuple(sorted(str(x) for x in _at(src['status'], s)))]
